@@ -25,6 +25,7 @@ class VBool(Value):
     key: str = ""      # textual condition for unknowns
     on_true: object = None    # callable(facts) installing the facts of the true branch
     on_false: object = None
+    rel: object = None        # ('==' | '!=', P, P) for integer (in)equalities - used to generalise facts over loops
 
 
 @dataclass
